@@ -68,6 +68,15 @@ class Elf(BinFormat):
         return self.__file
 
     def __init__(self, f):
+        # malformed content is reported through the format's own error type:
+        try:
+            self._read(f)
+        except (ElfError, StructureError):
+            raise
+        except Exception as e:
+            raise ElfError("%s: %s" % (type(e).__name__, e))
+
+    def _read(self, f):
         self.__file = f
         self.Ehdr = Ehdr(f)
         x64 = self.Ehdr.e_ident.EI_CLASS == ELFCLASS64
